@@ -72,7 +72,7 @@ def rows(syn):
                     r0, n0 = pstate[b.name]
                     return r0, n0 + notes
                 if b.name in state_params:
-                    return b.name, notes
+                    return "state", notes          # whatever the State parameter is called
                 return None
             if b.kind == "let" and b.init is not None:
                 inner = state_of(b.init, d + 1)
@@ -89,7 +89,7 @@ def rows(syn):
                 return "<expr>"
             b = sc.resolve(cur)
             if b is None:
-                return cur["p"]
+                return cur["p"] if "::" in cur["p"] or cur["p"][:1].isupper() else "<local>"
             if id(b.node) in role_of:
                 return role_of[id(b.node)]
             if b.kind == "param" and b.name in prole:
@@ -102,7 +102,11 @@ def rows(syn):
                 r = role(b.init, d + 1)
                 if r != "<expr>":
                     return r
-            return b.name
+            # no NodeTy field behind it: a parameter is named by its position, any other binding is just "a local" (names may change)
+            if b.kind == "param":
+                pn_ = [inp.get("pat", {}).get("name") for inp in fn["sig"]["inputs"]]
+                return f"<param {pn_.index(b.name)}>" if b.name in pn_ else "<param>"
+            return "<local>"
 
         for n in walk(fn["body"]):
             if n.get("k") != "call" or n["f"].get("k") != "path":
